@@ -148,6 +148,8 @@ pub async fn scenario(owned: bool, events: Vec<Ev>) -> Obs {
                 let body = body_for(link, i);
                 let label = label_for(link, i);
                 let sender = if link == 1 { &mut s1 } else { &mut s2 };
+                // every other post (by position in the history) is sent pre-settled
+                let body = fe2o3_amqp::Sendable::builder().message(body).settled(i % 2 == 1).build();
                 let res: Result<Result<Outcome, String>, ()> = if txn == 0 {
                     timeout(T, sender.send(body)).await.map(|r| r.map_err(|e| format!("{e:?}"))).map_err(|_| ())
                 } else if owned {
